@@ -20,7 +20,7 @@ OBLIGATIONS_C04 = ['PIPE_driver_computes_pipeline', 'PIPE_wsum_depends_on_counts
                    'PIPE_mixture_additive', 'PIPE_mixture_failure', 'PIPE_mixture_estimate_iff', 'PIPE_mixture_as_numbered_by_rdkit',
                    'PIPE_mixture_quadratic', 'PIPE_mixture_quadratic_symmetric', 'PIPE_mixture_quadratic_additive_full_fails', 'PIPE_dimensional_sum', 'PIPE_dimensional']
 OBLIGATIONS_C03 = ['PIPE_driver_computes_pipeline', 'PIPE_relabel_invariant', 'PIPE_ring_presentation_invariant_partial', 'PIPE_relabel_quadratic', 'PIPE_spelling_independent', 'PIPE_spelling_lookup', 'PIPE_spelling_group_order',
-                   'PIPE_group_keys_canonical', 'PIPE_spelling_raw_string_partial', 'PIPE_spelling_raw_string_full_fails',
+                   'PIPE_group_keys_canonical', 'PIPE_keys_origin', 'PIPE_spelling_raw_string_partial', 'PIPE_spelling_raw_string_full_fails',
                    'PIPE_dimensional_same', 'PIPE_dimensional_relabel']
 FLAGS = (None, True)            # S/R and G/RT plain, and relative to the elements
 CAP = 10000
@@ -655,6 +655,31 @@ def entry_lookup_oracle(ctx, name, lib, seed):
     return good
 
 
+def scheme_names_oracle(ctx, name, lib):
+    """PIPE_keys_origin / PIPE_spelling_raw_string_* on the shipped data: the strings that reach `Estimate` as the scheme file spells
+    them are remap targets and correction-descriptor names.  Such a string finds a library entry keyed by a `Group` only if it *is*
+    the canonical name; if it is written otherwise and the library has the group it denotes, its data can never be found."""
+    _, Group, Descriptor, _, _, Error = E._imports()
+    good = True
+    names = [str(t[1]) for v in lib.scheme.remaps.values() for t in v] + [str(d['name']) for d in lib.scheme.other_descriptors]
+    for t in dict.fromkeys(names):
+        ctx.count('pipe_scheme_names')
+        if '(' not in t:
+            continue
+        try:
+            canon = Group.parse(lib.scheme, t).name
+        except (Error.GroupSyntaxError, ValueError):
+            continue
+        if canon != t:
+            ctx.count('pipe_scheme_names_not_canonical')
+            if SET in lib[Group.parse(lib.scheme, t)] and SET not in lib[t]:
+                ctx.violation('a remap target / descriptor name of the scheme is spelled non-canonically and the library keys the group it denotes: '
+                              'its data can never be found by the string the decomposition returns',
+                              {'scheme': name, 'pipeline': 'scheme-names', 'name': t, 'Ts': []}, canon, t)
+                good = False
+    return good
+
+
 def respelled_library(ctx_scratch, name, seed):
     """a copy of a shipped library's directory whose `groups:` entries are all written in another spelling; returns the loaded copy"""
     import random, shutil, yaml
@@ -913,6 +938,8 @@ def replay(ctx, inp):
         variant_outcome_oracle(ctx, inp['scheme'], info, inp['smiles'], impl_pipeline(info, inp['smiles'], Ts), vwhat, Ts, inp['variant'])
     elif kind == 'entry':
         entry_lookup_oracle(ctx, inp['scheme'], lib, inp['seed'])
+    elif kind == 'scheme-names':
+        scheme_names_oracle(ctx, inp['scheme'], lib)
     elif kind == 'library-spelling':
         library_spelling_oracle(ctx, inp['scheme'], lib, inp['seed'], inp['smiles'], Ts)
     else:
